@@ -56,6 +56,12 @@ pub fn hex(bs: &[u8]) -> String {
     s
 }
 
+/// hex of a record inside a comma-separated record list (`e` = record without bases, so that the
+/// list `-` = no records stays unambiguous)
+pub fn hexr(bs: &[u8]) -> String {
+    if bs.is_empty() { "e".to_string() } else { hex(bs) }
+}
+
 pub fn unhex(s: &str) -> Vec<u8> {
     if s == "-" {
         return Vec::new();
